@@ -9,6 +9,7 @@ def handle (case : Json) : Json :=
   | "ssa_validate_eval" => ssaValidateEval case
   | "reg_validate_eval" => regValidateEval case
   | "builder_run" => builderRun case
+  | "convert" => convertOp case
   | op => Json.mkObj [("error", s!"unknown op {op}")]
 
 partial def loop (h : IO.FS.Stream) (out : IO.FS.Stream) : IO Unit := do
